@@ -30,6 +30,12 @@ pub fn run(c: &SchedCase) -> ExecOutcome {
         hookrec::record(H_CB, *n, 0);
     })
     .expect("insert");
+    // one case in five: an overloaded ticker shares the loop, a timer that is due again at every single poll
+    let mut ticker = None;
+    if c.case % 5 == 4 && !cfg!(miri) {
+        ticker = Some(h.insert_source(calloop::timer::Timer::immediate(), |_, _, _: &mut u64| calloop::timer::TimeoutAction::ToDuration(Duration::ZERO)).expect("ticker"));
+        o.cov("timer-due-at-every-poll");
+    }
     let k = c.threads.max(1);
     let closing = c.variant & 1 == 1;
     let wait_style = (c.variant >> 1) % 3;
@@ -173,6 +179,10 @@ pub fn run(c: &SchedCase) -> ExecOutcome {
         if cbs == before {
             break;
         }
+    }
+    // (the ticker has done its part: the quiescence checks are about the ping source alone)
+    if let Some(t) = ticker.take() {
+        h.remove(t);
     }
     let occupied = h.verif_stats().map(|s| s.occupied);
     // not spinning: with nothing pending a 30 ms dispatch lasts 30 ms (a lower bound cannot be broken by load)
